@@ -31,8 +31,8 @@ CHECKS = {
         text="TLC proves on the specification that the code-shaped operators (two-loop schoolbook, Karatsuba recursion with cut-off and hand-zeroed middle slot, reduction, two-case monomial loops) "
              "equal the ring definitions for all basis pairs, all exponents a in [0,2N) and extreme dense vectors at N <= 32/64, incl. X^a X^b = X^(a+b), X^N = -1. The real degree-generic routines are run at "
              "every N in {1,...,2048}: all basis pairs (small N), boundary pairs and few-term extreme polynomials (large N), dense products (N <= 32/64), every a in [0,2N) for the three monomial routines, "
-             "and the coefficient-wise operations with p incl. INT32_MIN; TLC recomputes each result from the definition with 16-bit-limb arithmetic and compares exactly. The Karatsuba entry points are also called with the result being the torus operand, and the outputs of from-scratch routines are pre-filled with garbage.",
-             " Norms and distances (sum of squares in both implementations, largest integer distance, largest torus distance with the wrap at 1/2) are rows of the same table."
+             "and the coefficient-wise operations with p incl. INT32_MIN; TLC recomputes each result from the definition with 16-bit-limb arithmetic and compares exactly. The Karatsuba entry points are also called with the result being the torus operand, and the outputs of from-scratch routines are pre-filled with garbage."
+             " Norms and distances (sum of squares in both implementations, largest integer distance, largest torus distance with the wrap at 1/2) are rows of the same table.",
         note="Trusted: TLC, Word32 limb arithmetic (itself exercised by all rows). Dense 1024-term products are not recomputed by TLC (cost); large N is covered through bilinearity-style sparse inputs.",
         design="§6 C11"),
     "C14": dict(
@@ -53,8 +53,8 @@ CHECKS = {
         text="For each layout of a grid TLC enumerates every mask value of the W-bit torus (W = t*basebit+1/+2), all keys, n_in up to 3, and checks that the extracted digits recompose to the nearest multiple "
              "(ties either way, carries across digits, wrap at the top) and that the output phase equals b - sum s_i Round(a_i) exactly, hence differs from the input phase by at most 2^-(t*basebit+1) per set key bit. "
              "The real routine is run with key-switching keys produced by lweCreateKeySwitchKey at noise 0 for 15 layouts (incl. basebit 1, t*basebit = 31) and dimensions incl. 1, 3, 9, 13: inputs on half-points, grid points, "
-             "all-ones digits, just below 1/2 and just below 1; TLC checks the exact relation, the stated bound, every generated key row (digit-0 rows trivial), lwePhase consistency and intact red zones. One sample in eight is a noiseless trivial sample and one has every coefficient below the rounding precision (no row selected), switched into a result object that held a mask.",
-             " On a noisy key from the real generator the relation is stated exactly as well: phase_out = phase_in - rounding - the noise of the rows actually used, with the digits recomputed by TLC and the row noises read off the key under the secret keys."
+             "all-ones digits, just below 1/2 and just below 1; TLC checks the exact relation, the stated bound, every generated key row (digit-0 rows trivial), lwePhase consistency and intact red zones. One sample in eight is a noiseless trivial sample and one has every coefficient below the rounding precision (no row selected), switched into a result object that held a mask."
+             " On a noisy key from the real generator the relation is stated exactly as well: phase_out = phase_in - rounding - the noise of the rows actually used, with the digits recomputed by TLC and the row noises read off the key under the secret keys.",
         note="Noise statistics of noisy keys are not part of this check (see C02/C07). Full 2^32 enumeration at 32 bits is replaced by the exhaustive W-bit model + boundary families.",
         design="§6 C08"),
     "C03": dict(
@@ -75,8 +75,8 @@ CHECKS = {
              "rounding and extreme output errors, and checks that every register decrypts to the plaintext interpreter's bit (Correct) and stays admissible (closure). Wrong-constant designs and a relaxed cap are rejected. "
              "The real gate API is then run, for both parameter sets in both orders in one process, on every gate x every input tuple x six kinds of admissible inputs (fresh, bootstrapped, injected error +-(1/32 - 16 sigma) "
              "in all sign patterns) plus aliased calls; each call is one event carrying the phases of all registers under the secret key, and TLC accepts the trace only if every event is a MachineP step "
-             "(sign consistent with the rounded linear combination, |output error| < 3/64, bystanders bit-identical, generator untouched) with Correct/Admissible in every state. Round-4 additions: constants (noiseless inputs) as a seventh input kind, and every gate once with operands re-randomised (same phases) so that the body of the bootstrapped combination is exactly 0 (rounded body 0, the branch a debug build asserts on). The concrete level is bound too: the real gate functions are called on a cloud key set built from the embedded key material of the MachineC instance, and TLC recomputes the bit-exact reduced gate (linear combination, modulus switch, blind rotation, extraction, key switch; MUX as two bootstraps, sum and one key switch) for every recorded call.",
-             " The sweep includes inputs steered to barb = 0 and to exact rounding ties of the modulus switch."
+             "(sign consistent with the rounded linear combination, |output error| < 3/64, bystanders bit-identical, generator untouched) with Correct/Admissible in every state. Round-4 additions: constants (noiseless inputs) as a seventh input kind, and every gate once with operands re-randomised (same phases) so that the body of the bootstrapped combination is exactly 0 (rounded body 0, the branch a debug build asserts on). The concrete level is bound too: the real gate functions are called on a cloud key set built from the embedded key material of the MachineC instance, and TLC recomputes the bit-exact reduced gate (linear combination, modulus switch, blind rotation, extraction, key switch; MUX as two bootstraps, sum and one key switch) for every recorded call."
+             " The sweep includes inputs steered to barb = 0 and to exact rounding ties of the modulus switch.",
         note="A1/A2 are assumptions of the model, monitored on every recorded execution. Keys are sampled (VERIF_SEED). Quick: spqlios-fma optim (full), nayuki-portable optim and spqlios-fma debug (reduced); thorough: 5 back-ends x 2 builds x 3 seeds. "
              "The bit-exact reduced-size algorithm (MachineC) is model-checked and replayed here (gate rows) and under C04/C09 (bootstrapping, external product).",
         design="§6 C01"),
@@ -88,8 +88,8 @@ CHECKS = {
              "Programs are produced by TLC itself (random behaviours of the model written out by Gen_MachineP) and by structured generators (long in-place chains, ripple-carry adder + comparator fed back into itself, "
              "multiplexer trees with heavy fan-out, random 8-register programs with re-loads incl. maximally noisy admissible inputs) and executed with real keys for both parameter sets; TLC validates every event as a MachineP "
              "step (so every wire of every circuit is decrypted against the plaintext interpreter), and accumulates per parameter set, gate family (binary / MUX) and input class (fresh / depth >= 10 / noisy / other) n, sum e, sum e^2, max; "
-             "acceptance: sd <= bound(1+8/sqrt(2n)), |mean| <= bound/4 + 8 bound/sqrt(n), max < 3/64, class variances pairwise within 8 sigma. The quick tier runs one process per first-use order of the two parameter sets (80 then 128, 128 then 80); the repository's own integration programs test-addition-boot and test-long-run are built unmodified, recorded through an LD_PRELOAD shim of the gate API and validated as MachineP behaviours.",
-             " For the mean clause 'for all key seeds', separate processes run 2800 gates under one key each (three key seeds quick, twelve thorough) and every trace is validated on its own, so that a bias that belongs to a key is not diluted."
+             "acceptance: sd <= bound(1+8/sqrt(2n)), |mean| <= bound/4 + 8 bound/sqrt(n), max < 3/64, class variances pairwise within 8 sigma. The quick tier runs one process per first-use order of the two parameter sets (80 then 128, 128 then 80); the repository's own integration programs test-addition-boot and test-long-run are built unmodified, recorded through an LD_PRELOAD shim of the gate API and validated as MachineP behaviours."
+             " For the mean clause 'for all key seeds', separate processes run 2800 gates under one key each (three key seeds quick, twelve thorough) and every trace is validated on its own, so that a bias that belongs to a key is not diluted.",
         note="Statistical clauses are hypothesis tests with >= 8 sigma wide regions (quick: ~1500 gate outputs on spqlios-fma; thorough: five back-ends, ~10^4 outputs on the fast ones). Degradations below ~10-20 % of the bound are not detected.",
         design="§6 C02"),
     "C15": dict(
@@ -100,8 +100,8 @@ CHECKS = {
              "dirty window on its const input closes inside the call (MC_Gadget). On the real library all 14 gates (patterns none, r=a, r=b, r=c, a=b, all), tfhe_bootstrap(_woKS)(_FFT), blindRotateAndExtract(_FFT) with an "
              "arbitrary test polynomial, blindRotate_FFT, lweKeySwitch, extraction and the three external products are called; each call is an event with 62-bit content hashes of every input, of the complete cloud key "
              "(bk, bkFFT incl. Lagrange data, both key-switching keys) and parameters before and after, of the output, and a generator-state comparison. TLC requires: non-aliased inputs, keys, parameters unchanged; generator "
-             "unmoved; and the output equal to the memoised output of any earlier call with the same (operation, key, inputs) -- which makes every aliased call agree bit for bit with its non-aliased twin. The TGSW-level entry points (external product, both decompositions, the FFT external product in place) are run under eight layouts incl. l = 1, l*Bgbit = 32 and k = 2 with snapshots of the TLWE input, the TGSW sample and the parameters.",
-             " Inputs steered so that the body of the bootstrapped combination is exactly a rounding tie of the modulus switch are part of the program (a tie must not be broken by a draw from the generator)."
+             "unmoved; and the output equal to the memoised output of any earlier call with the same (operation, key, inputs) -- which makes every aliased call agree bit for bit with its non-aliased twin. The TGSW-level entry points (external product, both decompositions, the FFT external product in place) are run under eight layouts incl. l = 1, l*Bgbit = 32 and k = 2 with snapshots of the TLWE input, the TGSW sample and the parameters."
+             " Inputs steered so that the body of the bootstrapped combination is exactly a rounding tie of the modulus switch are part of the program (a tie must not be broken by a draw from the generator).",
         note="Equality is decided on 62-bit hashes (collision probability negligible). Quick: 128-bit set on spqlios-fma and 80-bit set on nayuki-portable (optim); thorough: five back-ends, both sets, two debug builds.",
         design="§6 C15"),
     "C19": dict(
@@ -131,8 +131,8 @@ CHECKS = {
         text="TLC checks over a grid of parameters that the cloud export is a strict prefix of the secret export, contains no secret-key section and has the binary size given by the formula. On the real library, key sets generated by the real generator "
              "(small custom sets with n >= 32 and the default sets) are exported on both transports: the call sequence must be exactly Serial!ExpCloud (nothing appended or interleaved), the binary size must equal the formula, the cloud bytes must be a byte prefix of the secret bytes, "
              "the secret export must add exactly the LWE-key and TGSW-key sections, the LWE key bits and ring key coefficients must not occur in the cloud bytes in the int32 encoding the library uses nor byte-per-bit / bit-packed (a control search finds them in the secret export), "
-             "and importing the cloud bytes consumes exactly them and yields a key that has both evaluation keys. The text part of an export is found in the bytes (BEGIN/END spans), not by write call. Three transports are observed: streams, FILE with secret before cloud, and FILE with both files open at once (cloud first, closed last); the cloud key is also exported while another thread exports the secret key set, and must have the bytes of the sequential export. A larger odd-sized set (n = 887, k = 2, l = 1) joins the small custom sets.",
-             " Custom key sets include key-switching layouts and noise levels at the extremes (31x1; 12x2 with noise 1e-3 and k = 2; 15x2)."
+             "and importing the cloud bytes consumes exactly them and yields a key that has both evaluation keys. The text part of an export is found in the bytes (BEGIN/END spans), not by write call. Three transports are observed: streams, FILE with secret before cloud, and FILE with both files open at once (cloud first, closed last); the cloud key is also exported while another thread exports the secret key set, and must have the bytes of the sequential export. A larger odd-sized set (n = 887, k = 2, l = 1) joins the small custom sets."
+             " Custom key sets include key-switching layouts and noise levels at the extremes (31x1; 12x2 with noise 1e-3 and k = 2; 15x2).",
         note="'Contains no secret' is decided for the encodings searched; an arbitrary transformation of the key hidden in the mask coefficients is outside any byte search (the call-level grammar leaves no room for extra bytes, which bounds this).",
         design="§6 C17"),
     "C18": dict(
@@ -154,8 +154,8 @@ CHECKS = {
              "'one shared processor', 'twiddle tables published once and freed by the processor that built them' (TablesAlive) and 'evaluation temporaries shared by all callers' (Deterministic) are rejected. On the real library 1..64 threads (oversubscribed, random yields, created and destroyed in rounds, four different histories per thread, one thread generating keys meanwhile; in every other run the library's first user is a helper thread that generates the key, computes the sequential reference and exits before any worker starts) evaluate gates and a "
              "1/4-message bootstrapping with one shared cloud key; hooks (guard TFHE_VERIF) report processor construction/destruction, which processor and scratch buffer each thread ran its transforms on, and the planner critical sections, ordered by a global atomic counter. "
              "TLC requires that every thread used only the processor it constructed itself (identity, not timing), that every planner call was made by the holder of the mutex, that joined threads' processors were destroyed, and that every output equals the memoised output "
-             "of the same (operation, key, inputs) on any other thread, after any history, and in the sequential reference run. The evaluation mix includes the coefficient-domain bootstrapping (tGswExternMulToTLwe / tfhe_blindRotate), with its sequential reference. Workers also multiply in Lagrange workspaces that another thread allocated (the transforms must still run on the calling thread's processor: judged by identity through the hooks), and two inputs are re-randomised so that NAND's combination has body exactly 0.",
-             " A storm phase runs eight evaluators released together by a barrier before every single evaluation (150 each) while two client threads encrypt, decrypt and encode with other message spaces on the same keys; every result is held to the memoised reference. The very first use of the library in a fresh process by eight threads at once is specified in SharedInit.tla (guarded static initialisation of the process-lifetime processor; two wrong designs rejected) and validated on traces (one ProcShared event per process, every polynomial points at that processor)."
+             "of the same (operation, key, inputs) on any other thread, after any history, and in the sequential reference run. The evaluation mix includes the coefficient-domain bootstrapping (tGswExternMulToTLwe / tfhe_blindRotate), with its sequential reference. Workers also multiply in Lagrange workspaces that another thread allocated (the transforms must still run on the calling thread's processor: judged by identity through the hooks), and two inputs are re-randomised so that NAND's combination has body exactly 0."
+             " A storm phase runs eight evaluators released together by a barrier before every single evaluation (150 each) while two client threads encrypt, decrypt and encode with other message spaces on the same keys; every result is held to the memoised reference. The very first use of the library in a fresh process by eight threads at once is specified in SharedInit.tla (guarded static initialisation of the process-lifetime processor; two wrong designs rejected) and validated on traces (one ProcShared event per process, every polynomial points at that processor).",
         note="Exhaustive for the model; sampled schedules for the code (quick: spqlios-fma, nayuki-portable, fftw; thorough: five back-ends + debug builds). Data races that change neither identities nor results are not observable this way.",
         design="§6 C06"),
     "C04": dict(
@@ -175,8 +175,8 @@ CHECKS = {
         text="TLC checks on the reduced instances that phase(ExtProd(TGSW(m), c)) = m * phase(c) exactly for m in {0, 1, -1, X^j (every j), a small-norm polynomial}, every value and position of a chosen body coefficient and three mask sets, for k = 1 and 2, and that blind rotation "
              "multiplies the accumulator phase by X^(sum bara_i s_i) for exponent vectors incl. 0, 1, N'-1, N', N'+1, 2N'-1 entries. The TGSW samples, TLWE samples and bootstrapping key of the instance are embedded into the real structures; tGswExternMulToTLwe, tGswFFTExternMulToTLwe, tGswExternProduct, "
              "tfhe_blindRotate, tfhe_blindRotate_FFT (whole and one key element at a time) run on them; TLC recomputes the model per row and requires every coefficient of the observed phase on the embedded sub-ring to match within 256 units of 2^-32 and nothing to leak outside the sub-ring. "
-             "Since FFT images are produced by the real tGswToFFTConvert from the coefficient-domain samples, agreement of both variants with the same model shows the FFT key is a faithful image. At full size, noiseless TGSW encryptions of +-X^j with uniform masks are multiplied (FFT in place, coefficient domain in place, coefficient domain into a separate result) with TLWE samples with random and extreme coefficients under seven (thorough: twelve) layouts incl. Bgbit = 16, l*Bgbit = 32, k = 2; TLC checks phase(product) = +-X^j phase(sample) at sampled positions within the analytic bound (decomposition + TGSW row noise + FFT). The reduced instance with three key elements is replayed one key element at a time, and one instance is replayed by four threads at once. The coefficient-domain external product into a separate result is repeated sixteen times on one const operand before its phase is taken (the operand must not drift).",
-             " The TGSW sample itself is specified as an algebraic object (TGswAlg.tla over RingScheme: clear, + H, + mu*H, trivial, (X^a - 1)*, decryption, Lagrange image and back, gadget added in the Lagrange domain, fresh encryptions; invariants WellFormed and DecryptReadsMessage, exhaustive for short sequences at k = 1, 2); TLC-generated operation sequences are executed on the library at N = 1024 through the embeddings and every step is validated (Trace_TGswAlg)."
+             "Since FFT images are produced by the real tGswToFFTConvert from the coefficient-domain samples, agreement of both variants with the same model shows the FFT key is a faithful image. At full size, noiseless TGSW encryptions of +-X^j with uniform masks are multiplied (FFT in place, coefficient domain in place, coefficient domain into a separate result) with TLWE samples with random and extreme coefficients under seven (thorough: twelve) layouts incl. Bgbit = 16, l*Bgbit = 32, k = 2; TLC checks phase(product) = +-X^j phase(sample) at sampled positions within the analytic bound (decomposition + TGSW row noise + FFT). The reduced instance with three key elements is replayed one key element at a time, and one instance is replayed by four threads at once. The coefficient-domain external product into a separate result is repeated sixteen times on one const operand before its phase is taken (the operand must not drift)."
+             " The TGSW sample itself is specified as an algebraic object (TGswAlg.tla over RingScheme: clear, + H, + mu*H, trivial, (X^a - 1)*, decryption, Lagrange image and back, gadget added in the Lagrange domain, fresh encryptions; invariants WellFormed and DecryptReadsMessage, exhaustive for short sequences at k = 1, 2); TLC-generated operation sequences are executed on the library at N = 1024 through the embeddings and every step is validated (Trace_TGswAlg).",
         note="The noisy-row clause (statistical bound) is observed through the gate-output statistics of C02, not here. Exactness relies on LL*BGB = W in the replay instances (no truncation).",
         design="§6 C09"),
     "C10": dict(
@@ -197,8 +197,8 @@ CHECKS = {
              "and hashes of arguments and output. TLC requires the output and next token to be a function of (call, token, arguments), the token to advance, outputs from different tokens to differ, and re-seeding to be a function of the seed -- so a second randomness source, "
              "state surviving a re-seed, or a reused mask are rejected. Distribution: phase errors (computed with the secret keys) of fresh LWE/TLWE/TGSW samples for alpha in {2^-30,...,2^-5, 0}, of every non-zero-digit row of the generated key-switching key and of sampled bootstrapping-key rows "
              "(x1024 coefficients) for both default sets generated in one process are streamed in units of alpha/64; TLC accumulates n, sum, sum of squares, max per stream and accepts iff sd = 64 within 8 estimator sigma plus the 2^-32 discretisation (both sides), |mean| <= 8 sigma/sqrt(n), "
-             "max < 10 sigma, the mask top-bits histogram is uniform within 8 binomial sigma, alpha = 0 gives exactly zero error, key bits are balanced, and digit-0 key-switching rows are exactly trivial. Every mask is also compared coordinate by coordinate with the previous one (a repeated coordinate has probability 2^-32), for LWE dimensions 1, 7, 64, 501, 631, for lweSymEncryptWithExternalNoise, and for a key-switching key with odd output dimension from the public generator. Each stream also reports how many errors are exactly 0 (a clipped or skipped noise term shows as a pile of zeros), and the external-noise entry point is driven with messages at and next to 1/2 and caller-supplied noise of either sign.",
-             " Further statistics per stream: two equal errors in a row (repeated noise values), per-input-coefficient block sums of every key-switching key (noise centred over the key, not per coefficient), and key-switching keys with t*(base-1) = 1..4."
+             "max < 10 sigma, the mask top-bits histogram is uniform within 8 binomial sigma, alpha = 0 gives exactly zero error, key bits are balanced, and digit-0 key-switching rows are exactly trivial. Every mask is also compared coordinate by coordinate with the previous one (a repeated coordinate has probability 2^-32), for LWE dimensions 1, 7, 64, 501, 631, for lweSymEncryptWithExternalNoise, and for a key-switching key with odd output dimension from the public generator. Each stream also reports how many errors are exactly 0 (a clipped or skipped noise term shows as a pile of zeros), and the external-noise entry point is driven with messages at and next to 1/2 and caller-supplied noise of either sign."
+             " Further statistics per stream: two equal errors in a row (repeated noise values), per-input-coefficient block sums of every key-switching key (noise centred over the key, not per coefficient), and key-switching keys with t*(base-1) = 1..4.",
         note="Statistical acceptance, not proof (false-alarm probability < 1e-14 per statistic; a 15 % change of a key row noise level is detected at the quick sample sizes). Distribution shape beyond two moments, maximum and a coarse histogram is not decided.",
         design="§6 C07"),
     "C16": dict(
@@ -214,8 +214,8 @@ CHECKS = {
              "TLC requires zero damaged red-zone bytes, no double free, no crash, plaintext-correct results, identical result/export hashes under both fill patterns, and nothing alive once the thread that ran a whole lifecycle (after a first run in the same process) has exited; "
              "configuration sequences on one thread and gates on noiseless constants are part of the scenarios. 'Every order the API allows' is the TLA+ machine Life (6 objects, 3 blobs, the collector; guards = what must be alive): TLC checks NoDangling/DeadIsEmpty/NoStuck for all behaviours up to 9 (thorough: 11) calls and for both "
              "parameter kinds, samples ~20 (thorough: ~250) long behaviours, and every one is replayed by h_life; Trace_Life accepts a replay only if each step is an enabled Life action, each decryption returns Life's plaintext, gate outputs are one function of (key, gate, inputs) across generated and re-imported key objects and across runs, "
-             "key exports are byte-identical, and the windows are clean. A third pass runs the small configurations, the sequences and a polynomial-routine scenario (monomial products at exponents 0, 1, N-1, N, N+1, 2N-1, Karatsuba, naive and FFT products) with every 1-64 KiB block ending on an inaccessible page.",
-             " The four-phase object API of all seventeen structure types (alloc / init / destroy / free, new / delete, single and array forms: 204 functions) is the slot machine ObjLife.tla; TLC-generated call sequences run under the ledger and Trace_ObjLife holds the per-call readings to footprint rules (alloc one block linear in n; free = -alloc; destroy = -init; new = alloc + init; delete = -new; function of (type, n)). Life replays assign every step an executor (the run's thread or a one-step helper thread) and every export / import a transport (std::iostream or FILE*). Thread create / exit histories x object lifetimes: a Lagrange polynomial created by a thread that has exited and then used by another (probe 1) and the concurrent first use (probe 2) are decided by identity in Trace_Threads (PolyNew / PolyUse / PShared); Threads.tla keeps the pinned design (PolyProc = creator, violates PolyProcAlive: defect D8) and the repaired one."
+             "key exports are byte-identical, and the windows are clean. A third pass runs the small configurations, the sequences and a polynomial-routine scenario (monomial products at exponents 0, 1, N-1, N, N+1, 2N-1, Karatsuba, naive and FFT products) with every 1-64 KiB block ending on an inaccessible page."
+             " The four-phase object API of all seventeen structure types (alloc / init / destroy / free, new / delete, single and array forms: 204 functions) is the slot machine ObjLife.tla; TLC-generated call sequences run under the ledger and Trace_ObjLife holds the per-call readings to footprint rules (alloc one block linear in n; free = -alloc; destroy = -init; new = alloc + init; delete = -new; function of (type, n)). Life replays assign every step an executor (the run's thread or a one-step helper thread) and every export / import a transport (std::iostream or FILE*). Thread create / exit histories x object lifetimes: a Lagrange polynomial created by a thread that has exited and then used by another (probe 1) and the concurrent first use (probe 2) are decided by identity in Trace_Threads (PolyNew / PolyUse / PShared); Threads.tla keeps the pinned design (PolyProc = creator, violates PolyProcAlive: defect D8) and the repaired one.",
         note="PARTIAL: decides heap out-of-bounds writes within 64 bytes of a block, leaks, double frees, uses of uninitialised/freed heap memory that change a result or an export, and - in a third pass where every block of 1 to 64 KiB ends on an inaccessible page - any access (reads included) past the end of a coefficient or sample array. NOT decided: out-of-bounds reads before a block or past the end of smaller blocks, stack accesses, accesses far outside a block, "
              "anything inside hand-written assembly that stays in mapped memory. The ASan/UBSan/Valgrind configurations named by the property are a different technique and are not run. Found and repaired through this family of checks: D2, D3, D4, D8 (a Lagrange polynomial used after its creating thread exited read that thread's destroyed FFT processor; decided by identity in Trace_Threads!PolyUse; fix 0f4e6fe).",
         design="§6 C16, §7"),
@@ -224,8 +224,8 @@ CHECKS = {
         technique="Cross-configuration conformance replay: one driver compiled as C99 and as C++11 against each of the ten library builds, exported-symbol tables, and a C99 link test, validated by a TLA+ memo specification (Trace_Compat)",
         text="The check prints, through a C99 and a C++11 compilation of the same driver, sizeof and offsetof of every field of the 20 public structures and the observations of one seeded API behaviour (key generation, encryption, a gate, decryption, reads of struct fields through the headers, export of the cloud key); "
              "it extracts the exported symbols of the five variants x two builds with nm, the functions the headers declare to a C99 compiler, and links a C99 program referencing every exported API function against every variant. TLC validates the event stream against a memo specification: layouts identical in both views, "
-             "portable observations identical across all variants and views, back-end dependent ones identical across the views of a variant, no variant missing a function another one exports, no API function exported only with C++ linkage, every link succeeds. The driver also calls the public polynomial / Lagrange API (MultFFT, AddMulRFFT, SubMulRFFT, LagrangeHalfCPolynomialMul / AddMul / SubMul / AddTo / AddTorusConstant with the transforms) on inputs whose exact results lie on a 2^16 grid; the results rounded to that grid are portable observations across all ten builds and both views.",
-             " The Lagrange products are also observed with the result or the accumulator being one of the operands, under the key of the three-object call."
+             "portable observations identical across all variants and views, back-end dependent ones identical across the views of a variant, no variant missing a function another one exports, no API function exported only with C++ linkage, every link succeeds. The driver also calls the public polynomial / Lagrange API (MultFFT, AddMulRFFT, SubMulRFFT, LagrangeHalfCPolynomialMul / AddMul / SubMul / AddTo / AddTorusConstant with the transforms) on inputs whose exact results lie on a 2^16 grid; the results rounded to that grid are portable observations across all ten builds and both views."
+             " The Lagrange products are also observed with the result or the accumulator being one of the operands, under the key of the three-object call.",
         note="Conformance testing across configurations with very little specification content; level 'other'. The literal symbol-table and header-compilation clauses are observed through compilers and nm, which is outside what a TLA+ specification can derive.",
         design="§6 C20, §7"),
 }
